@@ -692,7 +692,15 @@ def c18(tier, seed):
     pcases = [{'files': fs_, 'len': L} for fs_ in sets for L in range(2, 9)]
     ck.add(run_cases(prog, embedded.run_embedded_probe_case, pcases),
            'the probed path is a solver variable: exists/metadata/read/read_dir on ANY canonical path of 2..8 bytes answer exactly as the implied tree says (no phantom, no missing entry)')
+    rng = random.Random(seed)
+    two = []
+    for _ in range(24 if tier == 'quick' else 400):
+        a, b = rng.choice(sets), rng.choice(sets)
+        if a != b:
+            two.append({'files1': a, 'files2': b, 'order': rng.choice([(1, 2), (2, 1)])})
+    ck.add(run_cases(prog, embedded.run_embedded_two_case, two), 'two RustEmbed types (two different folders) in one process: each filesystem shows its own folder')
     ck.bounds = {'embedded_file_sets': 'all %d subsets of %s' % (len(sets), embedded.CANDIDATES), 'file_bytes': '0..2 symbolic',
+                 'two_types': '%d seeded pairs of different file sets, both construction orders' % len(two),
                  'probe_paths': 'every canonical path of 2..8 bytes over the bytes of the candidate names plus / . z (solver variable)',
                  'paths': 'every file, implied directory, the root, absent siblings, name prefixes, paths below files'}
     ck.assumptions = COMMON_ASSUMPTIONS[:2] + ['the rust-embed derive and the compiled folder are replaced by a model of RustEmbed::iter/get (validated against rust-embed reading a real folder)',
